@@ -133,6 +133,8 @@ def rule_c(ctx):
              "LinearModel's with _scaling[l], _offset[l]; mask = cached_labels == label over unique_labels in storage order; a `.shape` "
              "may only be compared with a shape; static thresholding uses the same strict operators in both variants and restricts "
              "each label's mask to labels == label; an optional mask is conjoined")
+    from ..flow import expand
+
     m = ctx.model
     lin = m.func(LIN, "LinearModel.__call__")
     het = m.func(LIN, "HeterogeneousLinearModel.__call__")
@@ -166,7 +168,12 @@ def rule_c(ctx):
                 occ = [x for x in ast.walk(v) if isinstance(x, ast.Name) and x.id == het.params[1]]
                 both = bool(occ) and all(isinstance(getattr(x, "_parent", None), ast.Subscript) and x._parent.value is x and norm(x._parent.slice) == mk for x in occ)
                 masked_input = f"{het.params[1]}[{mk}]"
-            ctx.ob(R, het.qname, "mask is cached_labels == label, applied to both sides of the assignment", mask_def in (f"self.cached_labels == {lab}", f"{lab} == self.cached_labels") and both, mask_def, stores[0])
+            mk_x = norm(expand(het.node, env[mk])) if mk in env else ""
+            if mk_x not in (f"self.cached_labels == {lab}", f"{lab} == self.cached_labels") and "self.cached_labels" not in mk_x and lab in mk_x:
+                mask_def = f"label array `{mk_x}` not found to be self.cached_labels"
+            else:
+                mask_def = mk_x
+            ctx.ob(R, het.qname, "mask is cached_labels == label, applied to both sides of the assignment", mk_x in (f"self.cached_labels == {lab}", f"{lab} == self.cached_labels") and both, mask_def, stores[0])
         if val is not None:
             def atom(n):
                 t = norm(n)
@@ -178,7 +185,9 @@ def rule_c(ctx):
                     return "self._offset"
                 return None
             try:
-                hp = ToPoly(atomize=atom)(val)
+                from ..flow import expand
+
+                hp = ToPoly(atomize=atom)(expand(het.node, val))
                 ctx.ob(R, het.qname, "per-label expression equals the homogeneous formula with _scaling[l], _offset[l]", hp == hom, repr(hp), loops[0])
             except NotPolynomial as e:
                 raise AnalysisError(f"{het.qname}: per-label expression outside the polynomial language: {e}")
@@ -199,10 +208,15 @@ def rule_c(ctx):
     g = m.func(STM, "StaticThresholdModel._call_heterogeneous")
     ctx.instance(R)
 
-    def ops(fn, p):
+    def ops(fn0, p0):
+        from ..amatch import helper_closure
+
         out = []
-        for c in ast.walk(fn.node):
-            if isinstance(c, ast.Compare) and len(c.ops) == 1 and p in (norm(c.left), norm(c.comparators[0])):
+        for fn in helper_closure(fn0):
+          pnames = set(fn.params) - {"self"} if fn is not fn0 else {p0}
+          for c in ast.walk(fn.node):
+            p = next((x for x in (norm(c.left), norm(c.comparators[0])) if x in pnames), None) if isinstance(c, ast.Compare) and len(c.ops) == 1 else None
+            if p is not None and "threshold" in norm(c):
                 # relation as seen from the signal (comparisons are stored in canonical `<` orientation)
                 if norm(c.left) == p:
                     rel, bound = type(c.ops[0]).__name__, norm(c.comparators[0])
